@@ -41,6 +41,8 @@ class V3Unit(WireUnit):
 
     def setup(self, rt, interp):
         WireUnit.setup(self, rt, interp)
+        from pyvc import stdlib as _stdlib
+        _stdlib.install_numeric_models(rt, interp)        # timedelta / ip addresses (application types in ill-typed fields)
         F = z3.Function
         rt.f_kul = F("localised_key", PStr, Bytes, Bytes, Bytes)           # (hash name, password, engine id)
         rt.f_ct = F("priv_ciphertext", Bytes, Bytes, Int, Int, Bytes, Bytes)
@@ -171,6 +173,10 @@ class EmitV3(V3Unit):
         if self.reply == "ill-typed-boots":
             # a reply that still decodes: msgAuthoritativeEngineBoots is sent as an OCTET STRING
             secp = rfc.t_seq([rfc.t_octets(E, FA), rfc.t_octets(ctx.fresh_bytes("boots_as_octets"), FA), rfc.t_int(Tm, FA),
+                              rfc.t_octets(b"", FA), rfc.t_octets(b"", FA), rfc.t_octets(b"", FA)], FA)
+        elif self.reply == "ill-typed-boots-timeticks":
+            # ... or as an application type that x690 decodes to a subclass of Integer (TimeTicks pythonises to a timedelta)
+            secp = rfc.t_seq([rfc.t_octets(E, FA), rfc.tlv(0x43, WInt(B), FA), rfc.t_int(Tm, FA),
                               rfc.t_octets(b"", FA), rfc.t_octets(b"", FA), rfc.t_octets(b"", FA)], FA)
         elif self.reply == "ill-typed-time":
             secp = rfc.t_seq([rfc.t_octets(E, FA), rfc.t_int(B, FA), rfc.t_octets(ctx.fresh_bytes("time_as_octets"), FA),
@@ -445,6 +451,7 @@ def units_emit(tier):
     us.append(EmitV3("authNoPriv-md5", "multiget", 1, False, reply="no-bindings"))
     us.append(EmitV3("authNoPriv-md5", "multiget", 1, False, reply="ill-typed-boots"))
     us.append(EmitV3("noAuthNoPriv", "multiget", 1, False, reply="ill-typed-time"))
+    us.append(EmitV3("authNoPriv-sha1", "multiget", 1, False, reply="ill-typed-boots-timeticks"))
     us.append(EmitV3("authPriv-md5", "multiget", 1, False, interference=True))
     us.append(EmitV3("authPriv-sha1", "multiset", 1, True, interference=True))
     us.append(EmitV3("noAuthNoPriv", "bulkget", 1, False, interference=True))
